@@ -15,6 +15,7 @@ RULE = ("every way a run can end: during the initial sampling (target met at "
         "except -2 must be observed or the check is inconclusive")
 RULE += ("  Also: undefined values at the first evaluation(s) only; bounds that fix one variable at a huge value while the others have a narrow real range, huge finite boxes (status 2 only if every variable is fixed to rounding of its own magnitude); requests placed by replay ((target, feasibility_tol) = (f_k, v_k), small filters, trial points followed by a correction) judged by the status oracle; targets at / beyond the extreme barrier.")
 RULE += (" Initial radii of 1e75..1e150 (status -2 reached inside the main loop).")
+RULE += (" Family budget_before: the budget ends right before a correction / geometry / trust-region evaluation (placed by replay) with a loose tolerance; user functions raising StopIteration of their own (never status 3).")
 ASSUMPTIONS = [
     "ground truth from the harness spies (callback log, evaluation log) and "
     "from the final TrustRegion state seen by the _build_result tap",
@@ -23,7 +24,8 @@ ASSUMPTIONS = [
 REQUIRED = {"eval.post": 1000, "checked_results": 300}
 MIN_NONTRIVIAL = {"quick": 12, "thorough": 20}
 PLAN = [("init", 700, 9000), ("loop", 700, 9000), ("degenerate", 300, 3000),
-        ("placed", 300, 3000), ("cross", 300, 6000)]
+        ("placed", 300, 3000), ("cross", 300, 6000),
+        ("budget_before", 120, 1500)]
 NEED_STATUS = (0, 1, 2, 3, 4, 5, 6, -1)
 
 
@@ -185,9 +187,33 @@ def make_spec(case):
                                                             npt + 40))}
         elif trig == "maxfev":
             o["maxfev"] = int(rng.integers(npt + 1, npt + 30))
+            if rng.random() < 0.5:
+                # problems rich in second-order corrections with a loose
+                # tolerance: the budget often ends at a correction, with
+                # 'feasible' points on record (exhausted budget = no success)
+                from checks import c01
+                spec = c01.make_spec({"id": case["id"], "fam": "soc",
+                                      "idx": case["idx"],
+                                      "seed": case["seed"]})
+                o = spec["options"]
+                o["maxfev"] = int(rng.integers(6, 60))
+                o["feasibility_tol"] = float(rng.choice([0.5, 10.0, 1e3]))
+                trig = "maxfev_soc"
         else:
             o["maxiter"] = int(rng.integers(1, 15))
             o["maxfev"] = 500
+        if trig in ("radius", "maxiter", "callback") and rng.random() < 0.25 \
+                and spec["obj"]["kind"] != "none":
+            # a user function fails with StopIteration of its own (no
+            # callback request was made: never status 3)
+            tgt = "con" if spec.get("nl") and rng.random() < 0.5 else "obj"
+            f = {"target": tgt, "val": "raise_stop",
+                 "when": {"idx": [int(rng.integers(0, npt + 25))]}}
+            if tgt == "con":
+                f["j"] = 0
+                f["comp"] = None
+            spec["faults"] = [f]
+            trig += "+user_stopiteration"
         spec["trigger"] = "loop/" + trig
     return spec
 
@@ -208,7 +234,32 @@ def run_case(case):
             r["nt"] = "placed|" + str(r["nt"])
         r["counts"]["checked_results"] = 1
         return r
-    if case["fam"] == "cross":
+    if case["fam"] == "budget_before":
+        # the evaluation budget ends right BEFORE an evaluation of a chosen
+        # kind (second-order correction, geometry, trust-region), placed by
+        # replay on a problem rich in corrections with a loose tolerance, so
+        # that 'feasible' points are on record: an exhausted budget is
+        # status 5 and never a success
+        from checks import c01
+        rng = e2e.rng_of(ID, case)
+        spec = c01.make_spec({"id": case["id"], "fam": "soc",
+                              "idx": case["idx"], "seed": case["seed"]})
+        spec["options"]["feasibility_tol"] = float(rng.choice(
+            [0.5, 10.0, 1e3]))
+        spec["options"]["maxfev"] = 80
+        dry = mrun.run(spec)
+        table = oracles.eval_table(dry) if dry.res is not None else []
+        want = str(rng.choice(["soc", "soc", "geo", "tr"]))
+        ks = [r["i"] for r in table if r["kind"] == want and r["i"] >= 2]
+        if not ks:
+            return e2e.record(case, [], tags=["fam:budget_before",
+                                              "dry:no_candidate"],
+                              counts=e2e.base_counts(dry), skipped=True)
+        spec = dict(spec)
+        spec["options"] = dict(spec["options"])
+        spec["options"]["maxfev"] = int(ks[int(rng.integers(len(ks)))])
+        spec["trigger"] = "budget_before/" + want
+    elif case["fam"] == "cross":
         spec, _src = e2e.cross_spec(ID, case)
         spec.setdefault("trigger", "cross/" + _src)
     else:
